@@ -693,6 +693,11 @@ def defaults_and_falsy_values(ctx):
             facts["-0.0 double"] = d.dumps() == _st.pack(endian + "d", -0.0) and int(d.i) == 1 << 63
             d.h = [-0.0, 0.0, -0.0, 1.0]
             facts["-0.0 float16 elements"] = d.dumps() == _st.pack(endian + "4e", -0.0, 0.0, -0.0, 1.0)
+            # a union constructed through the fields of its anonymous structure member is rebuilt from that member
+            cs3 = lib.load("union F { struct { uint8 m; uint8 n; }; uint16 w; uint8 raw[2]; };", endian, False, False)
+            fu = cs3.F(m=1, n=2)
+            facts["constructed through folded fields"] = (fu.dumps() == b"\x01\x02" and list(fu.raw) == [1, 2]
+                                                          and int(fu.w) == int.from_bytes(b"\x01\x02", bo) and int(fu.m) == 1)
             v = cs.U(bytes([1, 2, 3, 4]))
             try:
                 v.c = []
